@@ -15,7 +15,7 @@ for d in sorted(glob.glob(f"{root}/seeded/*/")):
         subprocess.run(["rsync", "-a", "--exclude", ".git", "--exclude", "__pycache__", "--exclude", "logs", "/repo/", S + "/"], check=True)
         env = dict(os.environ, PYTHONPATH=S + "/src", PYTHONDONTWRITEBYTECODE="1")
         d0 = subprocess.run(["/venv/bin/python", d + "demo.py", S], cwd=S, env=env, capture_output=True, text=True).returncode
-        if subprocess.run(["patch", "-p1", "-s", "--fuzz=3", "-i", d + "patch.diff"], cwd=S, capture_output=True).returncode != 0:
+        if subprocess.run(["git", "apply", "--whitespace=nowarn", d + "patch.diff"], cwd=S, capture_output=True).returncode != 0:
             print(f"{prop}/{n}: PATCH DOES NOT APPLY")
             continue
         t = subprocess.run(["/venv/bin/python", "-m", "pytest", "-q", "-p", "no:cacheprovider"], cwd=S, env=env, capture_output=True, text=True).stdout.strip().split("\n")[-1]
